@@ -33,6 +33,21 @@ fn main() {
             let c = checks::by_id(&id).unwrap_or_else(|| usage());
             std::process::exit(engine::shrink_file(&*c, &path));
         }
+        "info" => {
+            // debugging aid: headers of a file as the decoder sees them
+            let data = std::fs::read(args.get(2).unwrap_or_else(|| usage())).expect("read file");
+            match jxl_oxide::JxlImage::builder().read(std::io::Cursor::new(&data[..])) {
+                Ok(img) => {
+                    let h = img.image_header();
+                    println!("image {}x{} metadata: {:?}", h.size.width, h.size.height, h.metadata);
+                    for i in 0..img.num_loaded_frames() {
+                        println!("frame {i} @{:?}: {:?}", img.frame_offset(i), img.frame(i).map(|f| f.header()));
+                    }
+                    println!("loaded frames {} keyframes {} done {}", img.num_loaded_frames(), img.num_loaded_keyframes(), img.is_loading_done());
+                }
+                Err(e) => println!("read error: {e}"),
+            }
+        }
         "replay" => {
             let path = std::path::PathBuf::from(args.get(2).unwrap_or_else(|| usage()));
             let text = std::fs::read_to_string(&path).expect("read replay file");
